@@ -1,6 +1,7 @@
 package rules
 
 import (
+	"sort"
 	"fmt"
 	"go/token"
 	"go/types"
@@ -514,6 +515,8 @@ func c04(c *Ctx) (*report.Result, error) {
 	res.RuleDoc["O4.9"] = "a target whose stream is down while its tasks wait holds the acknowledgement back: the ackByTarget entry for a target is ensured before the hand-over is attempted, not after it succeeded (same analysis as O1.8) - otherwise, while the receiver retries a broken or backlogged target, another target's confirmation acknowledges the waiting tasks"
 	if g := resolve(c, res, "O4.9", anchor{"proxy", "*proxyStreamReceiver", "recvReplicationMessages"}); g != nil {
 		checkSilentTargets(c, res, g, "O4.9")
+		res.RuleDoc["O4.12"] = "each target stream's sender owns the message it is handed: a message handed over inside a fan-out or retry loop is a fresh object per hand-over, down to everything its pointer / interface fields reach (same analysis as O2.5) - the sender rewrites the watermark into its own id space in place and repeats it in keep-alives, so a body shared between targets lets one target advertise a watermark above what it was sent, and its confirmation then acknowledges unconfirmed tasks"
+		checkFreshPerHandover(c, res, "O4.12", g)
 	}
 	res.RuleDoc["O4.5"] = "a target stream that (re)connects is not told a watermark above tasks still waiting for it: lastWatermark is written only from watermark-only batches (same rule as O1.6)"
 	checkReplayedWatermark(c, res, "O4.5")
@@ -965,11 +968,92 @@ func checkFreshPerHandover(c *Ctx, res *report.Result, rule string, f *ssa.Funct
 			continue
 		}
 		r := flow.FindPath(flow.After(u.at), self, func(x ssa.Instruction) bool { return x == def }, nil)
-		res.Check(!r.Found, rule, construct, instrPos(c.Prog, u.at), "struct and payload are (re)created on every way back to the hand-over", "the payload pointer produced at "+instrPos(c.Prog, def)+" is reused for the next hand-over without being re-created: several targets receive the same message object and rewrite it in place")
+		if !res.Check(!r.Found, rule, construct, instrPos(c.Prog, u.at), "struct and payload are (re)created on every way back to the hand-over", "the payload pointer produced at "+instrPos(c.Prog, def)+" is reused for the next hand-over without being re-created: several targets receive the same message object and rewrite it in place") {
+			continue
+		}
+		// a freshly allocated envelope is only as fresh as what it points to: every pointer / interface field of a
+		// composite literal must itself be a literal created per hand-over or a proto.Clone - the target's sender
+		// rewrites the watermark and the task ids through these pointers
+		if al, isAl := def.(*ssa.Alloc); isAl {
+			shared, unknown := sharedPayloadField(al, 0, func(d ssa.Instruction) bool {
+				rr := flow.FindPath(flow.After(u.at), self, func(x ssa.Instruction) bool { return x == d }, nil)
+				return !rr.Found
+			})
+			deep := fmt.Sprintf("%s: message hand-over #%d: nothing the payload points to is shared between hand-overs", shortFn(f), n)
+			switch {
+			case shared != "":
+				res.Viol(rule, deep, instrPos(c.Prog, u.at), "the per-hand-over envelope points to "+shared+", which every other hand-over's envelope points to as well: the target senders rewrite the watermark (and task ids) in that shared body, so one target's stream carries - and later repeats in its keep-alive - another target's watermark")
+			case unknown != "":
+				res.Undec(rule, deep, instrPos(c.Prog, u.at), "origin of "+unknown+" not recognised as a per-hand-over literal or a proto.Clone")
+			default:
+				res.Hold(rule, deep, instrPos(c.Prog, u.at), "every pointer / interface field of the literal is a literal created per hand-over or a proto.Clone result")
+			}
+		}
 	}
 	if n < 2 {
 		res.Undec(rule, shortFn(f)+": hand-overs in loops", fnPos(c.Prog, f), fmt.Sprintf("%d found, 3 confirmed by hand (local watermark fan-out, remote watermark fan-out, task retry loop)", n))
 	}
+}
+
+// sharedPayloadField walks the pointer / interface fields of a composite literal. It returns a description of a
+// field whose value is loaded from somewhere else (shared), or of one whose origin is not understood.
+func sharedPayloadField(al *ssa.Alloc, depth int, perHandover func(ssa.Instruction) bool) (shared, unknown string) {
+	if depth > 4 {
+		return "", ""
+	}
+	fs, _ := flow.FieldStores(al)
+	var names []string
+	for k := range fs {
+		names = append(names, k)
+	}
+	sort.Strings(names)
+	for _, name := range names {
+		v := fs[name]
+		switch v.Type().Underlying().(type) {
+		case *types.Pointer, *types.Interface:
+		default:
+			continue
+		}
+		cur := v
+		for i := 0; i < 5; i++ {
+			switch y := cur.(type) {
+			case *ssa.TypeAssert:
+				cur = y.X
+				continue
+			case *ssa.ChangeInterface:
+				cur = y.X
+				continue
+			case *ssa.MakeInterface:
+				cur = y.X
+				continue
+			}
+			break
+		}
+		switch y := cur.(type) {
+		case *ssa.Const:
+			// nil
+		case *ssa.Alloc:
+			if !perHandover(y) {
+				return "field " + name + " (a literal created outside the hand-over loop)", ""
+			}
+			if s, u := sharedPayloadField(y, depth+1, perHandover); s != "" || u != "" {
+				return s, u
+			}
+		case *ssa.Call:
+			if sc := flow.StaticCallee(y.Common()); sc != nil && sc.Name() == "Clone" && sc.Pkg != nil && strings.HasSuffix(sc.Pkg.Pkg.Path(), "protobuf/proto") {
+				if !perHandover(y) {
+					return "field " + name + " (a clone made outside the hand-over loop)", ""
+				}
+				continue
+			}
+			return "", "field " + name + " (" + flow.Describe(cur) + ")"
+		case *ssa.UnOp:
+			return "field " + name + " = " + flow.Describe(cur) + " (loaded from an object that exists outside the hand-over)", ""
+		default:
+			return "", "field " + name + " (" + flow.Describe(cur) + ")"
+		}
+	}
+	return "", ""
 }
 
 // checkBatchBuffersFresh: the per-target task slices that go into hand-over messages are built afresh for every
